@@ -1,11 +1,22 @@
 From Coq Require Import ZArith List String Bool.
 From FV Require Import Base.Ser Base.Res C12.Model C12.ModelSpec.
+From FV Require C12.ModelProg.
 Import ListNotations.
 Open Scope string_scope.
+Global Instance Ser_tok : Ser ModelProg.tok :=
+  fun t => match t with ModelProg.TNum z => [0; z] | ModelProg.TOp o => [1; o] | ModelProg.TMask m => 2 :: ser m end%Z.
+Global Instance De_tok : De ModelProg.tok :=
+  fun l => match l with
+           | 0%Z :: z :: r => Some (ModelProg.TNum z, r)
+           | 1%Z :: o :: r => Some (ModelProg.TOp o, r)
+           | 2%Z :: r => match de r with Some (m, r') => Some (ModelProg.TMask m, r') | None => None end
+           | _ => None
+           end.
 Definition reg : registry := [
   ("interp", run2 interp);
   ("generalize", run2 generalize);
   ("specialize", run3 specialize_entry);
-  ("specialize_commands", run3 specialize_commands)
+  ("specialize_commands", run3 specialize_commands);
+  ("programToCommands", run1 ModelProg.programToCommands)
 ].
 Definition fv_entry := dispatch reg.
